@@ -1,7 +1,22 @@
-"""C06 — Hamming, Golay and quadratic-residue codes (DESIGN §5 C06)."""
-import itertools
+"""C06 — Hamming, Golay and quadratic-residue codes (DESIGN §5 C06).
 
-from bitarray import bitarray
+Besides the per-word sweeps (messages exhaustive, received words, single / double errors) the run
+exercises three input classes that single fresh big-endian calls cannot reach:
+
+* argument containers: the same logical bits in every container the entry points accept (bitarray
+  big / little endian, non-zero pad bits in the buffer, imported buffer, subclass, frozenbitarray;
+  ndarray rows, strided columns, reversed views, uint8 / bool for the ndarray entry points),
+* histories: every object an entry point returns is kept, calls go on (same code, other codes),
+  some kept objects are overwritten by the caller, and all kept objects are read again later,
+* structured received words: one word of every coset (every syndrome), low-weight error patterns,
+  words of one code resized to the length of another.
+"""
+import itertools
+import json
+import os
+
+import numpy
+from bitarray import bitarray, frozenbitarray
 from bitarray.util import int2ba
 
 from common import bits_str, impl_error
@@ -10,6 +25,8 @@ PROP = "C06"
 MODULES = ["C06"]
 GEN = ["Codes"]
 MATCHERS = {}
+
+FAIL_CAP = 12  # failure records kept per (kind, code); the rest is only counted
 
 
 def codes():
@@ -39,35 +56,408 @@ def call(fn, *a):
         return impl_error(e)
 
 
-def gen_str(cls, m: bitarray):
-    r = call(cls.generate, m)
-    if isinstance(r, str):
-        return r
-    return "".join(str(int(x)) for x in r.tolist())
+def canon(obj) -> str:
+    """logical content of an argument / result object as 0101… (never a repr)"""
+    if isinstance(obj, str):
+        return obj
+    try:
+        if isinstance(obj, numpy.ndarray):
+            return "".join(str(int(x)) for x in obj.tolist())
+        return "".join("1" if b else "0" for b in obj)
+    except BaseException as e:  # noqa
+        return "ERR uncanonical " + type(e).__name__
 
 
+def b01(x) -> str:
+    if isinstance(x, str):
+        return x
+    return "1" if x else "0"
+
+
+def gen_str(cls, m):
+    return canon(call(cls.generate, m))
+
+
+# ------------------------------------------------------------------------------------------------
+# argument containers
+# ------------------------------------------------------------------------------------------------
+class _SubBitarray(bitarray):
+    pass
+
+
+BA_FORMS = ("be", "le", "dirty-be", "dirty-le", "sub-le", "buf-be", "buf-le", "frozen-be", "frozen-le")
+NP_FORMS = ("np-int64", "np-col", "np-rev", "np-uint8", "np-bool")
+MUTABLE_BA_FORMS = tuple(f for f in BA_FORMS if not f.startswith("frozen"))
+
+
+def _endian(form: str) -> str:
+    return "little" if form.endswith("le") else "big"
+
+
+def endian_of(b) -> str:
+    e = b.endian
+    return e() if callable(e) else e
+
+
+def mk_arg(form: str, s: str):
+    """an argument object holding the logical bits `s`; None when the container cannot hold len(s) bits"""
+    if form in ("be", "le"):
+        return bitarray(s, endian=_endian(form))
+    if form.startswith("dirty-"):
+        # pad bits of the buffer are 1 (tobytes() hides them, the buffer protocol does not)
+        b = bitarray(len(s), endian=_endian(form))
+        b.setall(1)
+        for i, ch in enumerate(s):
+            b[i] = ch == "1"
+        return b
+    if form == "sub-le":
+        return _SubBitarray(s, endian="little")
+    if form.startswith("buf-"):
+        if len(s) % 8:
+            return None
+        raw = bytearray(bitarray(s, endian=_endian(form)).tobytes())
+        return bitarray(buffer=raw, endian=_endian(form))  # imported, writable buffer
+    if form.startswith("frozen-"):
+        return frozenbitarray(s, endian=_endian(form))
+    vals = [int(ch) for ch in s]
+    if form == "np-int64":
+        return numpy.array(vals, dtype=numpy.int64)
+    if form == "np-col":
+        # what BPTC passes: a column of an int table (strided view)
+        t = numpy.ones((len(s), 3), dtype=int)
+        t[:, 1] = vals
+        return t[:, 1]
+    if form == "np-rev":
+        return numpy.array(vals[::-1], dtype=int)[::-1]  # negative stride
+    if form == "np-uint8":
+        return numpy.array(vals, dtype=numpy.uint8)
+    if form == "np-bool":
+        return numpy.array(vals, dtype=bool)
+    raise ValueError(form)
+
+
+def store_args(arg) -> str:
+    """`<endian> <len> <hex of tobytes()>` of a bitarray argument (the line-protocol form)"""
+    return f"{endian_of(arg)} {len(arg)} {arg.tobytes().hex() or '-'}"
+
+
+# ------------------------------------------------------------------------------------------------
+# the oracle: the code as the standard defines it (reference copy of the generator matrices)
+# ------------------------------------------------------------------------------------------------
+class Ref:
+    def __init__(self, name, n, k, d, is_hamming, G):
+        self.name, self.n, self.k, self.d, self.is_hamming = name, n, k, d, is_hamming
+        rows = [int("".join(str(x) for x in r), 2) for r in G]
+        cw = [0] * (2**k)
+        for v in range(1, 2**k):
+            low = v & -v
+            cw[v] = cw[v ^ low] ^ rows[k - 1 - (low.bit_length() - 1)]
+        self.cw_int = cw
+        self.fmt = f"0{n}b"
+        self.cw = [format(x, self.fmt) for x in cw]
+        self.cwset = set(self.cw)
+        self.cwints = set(cw)
+        self.near1 = None
+        self.near2 = None
+
+    def enc(self, m: str) -> str:
+        return self.cw[int(m, 2)]
+
+    def is_cw(self, w: str) -> bool:
+        return w in self.cwset
+
+    def _near(self):
+        if self.near1 is None:
+            n1 = {}
+            for c in self.cw_int:
+                n1[c] = c
+                for b in range(self.n):
+                    n1[c ^ (1 << b)] = c
+            self.near1 = n1
+            if self.name == "h16114":
+                n2 = set()
+                masks = [(1 << a) | (1 << b) for a, b in itertools.combinations(range(self.n), 2)]
+                for c in self.cw_int:
+                    for mk in masks:
+                        n2.add(c ^ mk)
+                self.near2 = n2
+
+    def cac(self, w: str):
+        """what the property demands of check_and_correct(w): "1 <code word>" within distance 1,
+        "0 <w>" for a (16,11,4) double error, None where the property is silent"""
+        self._near()
+        wi = int(w, 2)
+        c = self.near1.get(wi)
+        if c is not None:
+            return f"1 {format(c, self.fmt)}"
+        if self.near2 is not None and wi in self.near2:
+            return f"0 {w}"
+        return None
+
+    def correct(self, w: str):
+        r = self.cac(w)
+        return None if r is None else r[2:]
+
+
+class Fails:
+    """ctx.fail with a cap per (kind, code) so that one defect does not write thousands of records"""
+
+    def __init__(self, ctx):
+        self.ctx = ctx
+        self.n = {}
+
+    def __call__(self, kind, inp, what, expected=None, actual=None):
+        key = (kind, inp.get("code") if isinstance(inp, dict) else None)
+        self.n[key] = self.n.get(key, 0) + 1
+        if self.n[key] <= FAIL_CAP * self.ctx.boost:
+            self.ctx.fail(kind, inp, what, expected=expected, actual=actual)
+        else:
+            self.ctx.count(f"suppressed-failure:{kind}")
+
+
+# ------------------------------------------------------------------------------------------------
+# histories
+# ------------------------------------------------------------------------------------------------
+# a step is a list: [op, code, form, bits] with op in gen / check / cac / correct, or
+# ["overwrite", ref, bits].  Every gen / cac / correct allocates the next handle (0, 1, 2, …).
+RESULT_OPS = ("gen", "cac", "correct")
+
+
+def step_line(st) -> str:
+    if st[0] == "overwrite":
+        return f"h.overwrite {st[1]} {st[2]}"
+    return f"h.{st[0]} {st[1]} {st[3]}"
+
+
+def apply_step(table, held, st):
+    """run one step on the real code; returns (output line, result object or None)"""
+    op = st[0]
+    if op == "overwrite":
+        obj = held[st[1]]
+        try:
+            if isinstance(obj, numpy.ndarray):
+                obj[...] = [int(c) for c in st[2]]
+            else:
+                obj[:] = bitarray(st[2])
+            return "ok", None
+        except BaseException as e:  # noqa  (read-only result objects are not a violation)
+            return impl_error(e), None
+    cls = table[st[1]][1]
+    arg = mk_arg(st[2], st[3])
+    ref = len(held)
+    if op == "gen":
+        r = call(cls.generate, arg)
+        return (r, None) if isinstance(r, str) else (f"{ref} {canon(r)}", r)
+    if op == "check":
+        return b01(call(cls.check, arg)), None
+    if op == "cac":
+        r = call(cls.check_and_correct, arg)
+        if isinstance(r, str):
+            return r, None
+        try:
+            ok, obj = r
+        except BaseException as e:  # noqa
+            return impl_error(e), None
+        return f"{ref} {b01(ok)} {canon(obj)}", obj
+    if op == "correct":
+        r = call(cls.correct_numpy_array, arg)
+        return (r, None) if isinstance(r, str) else (f"{ref} {canon(r)}", r)
+    raise ValueError(op)
+
+
+def expected_line(refs, ref, st):
+    """what the property demands of the step's output line (None: silent)"""
+    op = st[0]
+    if op == "overwrite":
+        return None
+    R = refs[st[1]]
+    if op == "gen":
+        return f"{ref} {R.enc(st[3])}"
+    if op == "check":
+        return b01(R.is_cw(st[3]))
+    if op == "cac":
+        e = R.cac(st[3])
+        return None if e is None else f"{ref} {e}"
+    if op == "correct":
+        e = R.correct(st[3])
+        return None if e is None else f"{ref} {e}"
+
+
+def run_history(table, refs, steps, window=3, on_bad=None):
+    """
+    Runs the steps on the real code keeping every result object.  After every step the last
+    `window` kept objects are read again, at the end all of them.  Returns (lines, held, expected)
+    where lines = [(model line, implementation output)] including the final reads.
+    on_bad(kind, index of the offending step, index of the step whose result is affected, expected, actual)
+    """
+    held, exp, owner, lines = [], [], [], []
+    reported = set()
+
+    def reread(lo, at):
+        for r in range(lo, len(held)):
+            if held[r] is None or r in reported:
+                continue
+            cur = canon(held[r])
+            if cur != exp[r]:
+                reported.add(r)
+                if on_bad:
+                    on_bad("held-result-changed", at, owner[r], exp[r], cur)
+
+    for idx, st in enumerate(steps):
+        out, obj = apply_step(table, held, st)
+        if st[0] == "overwrite":
+            if out == "ok":
+                exp[st[1]] = st[2]
+                reported.discard(st[1])
+                lines.append((step_line(st), out))
+                reread(max(0, len(held) - window), idx)
+            continue
+        ref = len(held)
+        want = expected_line(refs, ref, st)
+        if want is not None and out != want and on_bad:
+            on_bad("wrong-result", idx, idx, want, out)
+        lines.append((step_line(st), out))
+        if st[0] in RESULT_OPS:
+            held.append(obj)
+            owner.append(idx)
+            exp.append(None if obj is None else out.split(" ")[-1])
+        reread(max(0, len(held) - window), idx)
+    reread(0, len(steps) - 1)
+    for r, obj in enumerate(held):
+        if obj is not None:
+            lines.append((f"h.read {r}", canon(obj)))
+    return lines, held, exp
+
+
+def history_fails(table, refs, steps) -> bool:
+    bad = []
+    run_history(table, refs, steps, on_bad=lambda *a: bad.append(a))
+    return bool(bad)
+
+
+def sub_history(steps, idxs):
+    """the steps with the given indices as a history of its own (handles renumbered); None when an
+    overwrite would lose its target"""
+    sel = set(idxs)
+    refmap, n_old, out = {}, 0, []
+    for i, st in enumerate(steps):
+        if st[0] in RESULT_OPS:
+            if i in sel:
+                refmap[n_old] = len(refmap)
+            n_old += 1
+        if i in sel:
+            if st[0] == "overwrite":
+                if st[1] not in refmap:
+                    return None
+                out.append(["overwrite", refmap[st[1]], st[2]])
+            else:
+                out.append(st)
+    return out
+
+
+def shrink(table, refs, steps, at, owner):
+    """a short history that still fails: the affected step alone / with the offending step / with
+    the allocation of an overwritten object / with a few predecessors; else the whole prefix"""
+    alloc = [i for i, st in enumerate(steps[: at + 1]) if st[0] in RESULT_OPS]
+    base = {owner, at}
+    if steps[at][0] == "overwrite" and steps[at][1] < len(alloc):
+        base.add(alloc[steps[at][1]])
+    cands = [base]
+    for back in (1, 2, 4, 8):
+        cands.append(base | set(range(max(0, at - back), at)))
+        cands.append(base | set(range(max(0, at - back), at)) | set(range(owner, min(at, owner + back + 1))))
+    same = [i for i in range(at) if steps[i][0] != "overwrite" and steps[i][1] == steps[owner][1]][-6:]
+    cands.append(base | set(same))
+    for c in cands:
+        sub = sub_history(steps, c)
+        if sub is not None and history_fails(table, refs, sub):
+            return sub
+    return steps[: at + 1]
+
+
+def history_probe(ctx, fails, table, refs, component, steps, correspond=True):
+    def on_bad(kind, at, owner, expected, actual):
+        short = shrink(table, refs, steps, at, owner)
+        code = steps[owner][1] if steps[owner][0] != "overwrite" else None
+        if kind == "held-result-changed":
+            what = (
+                f"the object returned by step {owner} ({' '.join(map(str, steps[owner]))}) changed its content "
+                f"after step {at} ({' '.join(map(str, steps[at]))})"
+            )
+        else:
+            what = f"step {at} ({' '.join(map(str, steps[at]))}) of a history returns a wrong result"
+        fails(
+            kind if kind == "held-result-changed" else "wrong-result-in-history",
+            {"code": code, "history": [" ".join(map(str, s)) for s in short]},
+            what,
+            expected=expected,
+            actual=actual,
+        )
+
+    lines, held, _ = run_history(table, refs, steps, on_bad=on_bad)
+    ctx.count(f"hist:{component}:steps", len(steps))
+    ctx.count(f"hist:{component}:kept-objects", len(held))
+    ctx.count(f"hist:{component}:overwrites", sum(1 for s in steps if s[0] == "overwrite"))
+    for st in steps:
+        ctx.case(("hist", component) + tuple(st))
+    if correspond and not ctx.search_only and ctx.driver_ok:
+        ctx.correspond(f"history.{component}", [("h.reset", "ok")] + lines)
+    return held
+
+
+def parse_step(s: str):
+    p = s.split(" ")
+    if p[0] == "overwrite":
+        return ["overwrite", int(p[1]), p[2]]
+    return p
+
+
+# ------------------------------------------------------------------------------------------------
 def run(ctx):
     ctx.rule = (
         "per code: every one of the 2^k messages through generate; received words = all 2^n words "
-        "(n<=17: thorough, a seeded sample in quick; Golay 2^20 thorough only) plus every single-bit "
-        "(and for (16,11,4) double-bit) neighbour of code words through check / check_and_correct; a case "
-        "is non-trivial unless it is the all-zero word; distinct = distinct (code, operation, word)"
+        "(n<=16 always, n=17 and Golay 2^20 thorough, a seeded sample otherwise) plus one word of every "
+        "coset, every single-bit (for (16,11,4) double-bit; Golay/QR single+double+sampled triple) "
+        "neighbour of code words through check / check_and_correct / correct_numpy_array; every "
+        "message and a fixed share of the words again in every accepted argument container "
+        "(bitarray big/little endian, dirty pad bits, imported buffer, subclass, frozen; ndarray "
+        "int64/column view/reversed view/uint8/bool); histories that keep every returned object "
+        "(code book of >= 4096 encodes per code, overwrite-then-call-again, random interleaving of all "
+        "codes and entry points, words of one code resized to another code) and read them again "
+        "afterwards; a case is non-trivial unless it is the all-zero word; distinct = distinct "
+        "(code, operation, container, word) or history"
     )
     ctx.trusted_base += [
         "Lean 4.33 kernel",
         "tools/extract.py (reads GENERATOR_MATRIX / PARITY_CHECK_MATRIX / CORRECT_SYNDROME / n,k,d of the 7 classes from /repo)",
-        "hand-written model of generate/check/check_and_correct (Model/Codes.lean) tied to the code by this run's correspondence",
-        "numpy / bitarray are trusted as the substrate of the implementation",
+        "hand-written model of generate/check/check_and_correct (Model/Codes.lean), of the bitarray buffer and of the "
+        "object history (Model/CodesStore.lean) tied to the code by this run's correspondence",
+        "numpy / bitarray are trusted as the substrate of the implementation (tobytes()/endian()/iteration of bitarray define the buffer <-> logical bits relation the model states)",
         "Spec/EtsiCodes.lean + harness/reference/etsi_codes.json: hand-maintained reference copy of the ETSI Annex B.3 generator matrices",
     ]
-    ctx.assumptions += ["bit strings are passed as big-endian bitarrays of the documented length"]
-    import json, os
-    ref = json.load(open(os.path.join(os.path.dirname(os.path.abspath(__file__)), "..", "reference", "etsi_codes.json")))
+    ctx.assumptions += [
+        "bit strings are passed as bitarrays (either bit order) of the documented length, or, for generate / "
+        "correct_numpy_array, as one-dimensional 0/1 ndarrays; check_and_correct gets a mutable bitarray",
+        "single-threaded callers",
+    ]
+    fails = Fails(ctx)
+    ref_json = json.load(open(os.path.join(os.path.dirname(os.path.abspath(__file__)), "..", "reference", "etsi_codes.json")))
+    table = {c[0]: c for c in codes()}
+    refs = {name: Ref(name, n, k, d, h, ref_json[name]["G"]) for name, _, n, k, d, h in codes()}
+    # class tables as they are now (they must still be the same at the end of the run)
+    tables0 = {
+        name: {a: getattr(c[1], a).tolist() for a in ("GENERATOR_MATRIX", "PARITY_CHECK_MATRIX", "CORRECT_SYNDROME")}
+        for name, c in table.items()
+    }
+    do_corr = not ctx.search_only and ctx.driver_ok
+    long_held = []  # (code, history description, object, content at return) read again at the very end
+
     for name, cls, n, k, d, is_hamming in codes():
+        R = refs[name]
         # ---------------- messages: exhaustive
         cw = {}
         pairs = []
-        rG = ref[name]["G"]
+        rG = ref_json[name]["G"]
         for v in range(2**k):
             m = int2ba(v, length=k)
             out = gen_str(cls, bitarray(m))
@@ -75,29 +465,29 @@ def run(ctx):
             # oracle: the code word is the one the standard's generator matrix (reference copy) gives
             exp = "".join(str(sum(rG[i][j] & m[i] for i in range(k)) % 2) for j in range(n))
             if out != exp:
-                ctx.fail("not-the-etsi-codeword", {"code": name, "message": bits_str(m)}, f"{name}.generate differs from the ETSI B.3 generator matrix", expected=exp, actual=out)
+                fails("not-the-etsi-codeword", {"code": name, "message": bits_str(m)}, f"{name}.generate differs from the ETSI B.3 generator matrix", expected=exp, actual=out)
             pairs.append((f"code.gen {name} {bits_str(m)}", out))
             ctx.case((name, "gen", v), nontrivial=v != 0, sample={"code": name, "op": "generate", "message": bits_str(m), "out": out} if v == 5 else None)
             # oracle: systematic, length, passes the checker
             if isinstance(out, str) and out.startswith("ERR"):
-                ctx.fail("generate-raises", {"code": name, "message": bits_str(m)}, f"{name}.generate raised {out}")
+                fails("generate-raises", {"code": name, "message": bits_str(m)}, f"{name}.generate raised {out}")
                 continue
             if len(out) != n or out[:k] != bits_str(m):
-                ctx.fail("not-systematic", {"code": name, "message": bits_str(m)}, f"{name}.generate is not systematic / wrong length", expected=bits_str(m), actual=out)
+                fails("not-systematic", {"code": name, "message": bits_str(m)}, f"{name}.generate is not systematic / wrong length", expected=bits_str(m), actual=out)
             c = call(cls.check, bitarray(out))
             if c is not True:
-                ctx.fail("generated-word-rejected", {"code": name, "message": bits_str(m)}, f"{name}.check rejects generate output", expected=True, actual=str(c))
-        if not ctx.search_only and ctx.driver_ok:
+                fails("generated-word-rejected", {"code": name, "message": bits_str(m)}, f"{name}.check rejects generate output", expected=True, actual=str(c))
+        if do_corr:
             ctx.correspond(f"{name}.generate", pairs)
         cwset = set(cw.values())
         ctx.count(f"{name}:messages", 2**k)
         # oracle: exactly 2^k distinct code words, minimum distance (all pairs via linearity AND sampled pairs)
         if len(cwset) != 2**k:
-            ctx.fail("codewords-not-distinct", {"code": name}, f"{name}: generate is not injective", expected=2**k, actual=len(cwset))
+            fails("codewords-not-distinct", {"code": name}, f"{name}: generate is not injective", expected=2**k, actual=len(cwset))
         wmin = min((w.count("1") for w in cwset if "1" in w), default=0)
         if wmin < d:
             wit = next(v for v, w in cw.items() if w.count("1") == wmin and "1" in w)
-            ctx.fail("min-distance", {"code": name, "message": bits_str(int2ba(wit, length=k))}, f"{name}: code word of weight {wmin} < d={d}", expected=d, actual=wmin)
+            fails("min-distance", {"code": name, "message": bits_str(int2ba(wit, length=k))}, f"{name}: code word of weight {wmin} < d={d}", expected=d, actual=wmin)
         for _ in range(ctx.budget(300, 5000)):
             a, b = ctx.rng.randrange(2**k), ctx.rng.randrange(2**k)
             if a == b:
@@ -105,14 +495,44 @@ def run(ctx):
             dist = sum(x != y for x, y in zip(cw[a], cw[b]))
             ctx.case((name, "dist", a, b))
             if dist < d:
-                ctx.fail("min-distance", {"code": name, "a": a, "b": b}, f"{name}: two code words at distance {dist} < {d}", expected=d, actual=dist)
+                fails("min-distance", {"code": name, "a": a, "b": b}, f"{name}: two code words at distance {dist} < {d}", expected=d, actual=dist)
+
+        # ---------------- the code book as a caller collects it: every returned array is kept
+        rounds = max(1, -(-ctx.budget(4096, 16384) // 2**k))
+        gen_forms = BA_FORMS + NP_FORMS
+        steps = []
+        for r in range(rounds):
+            for v in range(2**k):
+                form = "be" if r == 0 else gen_forms[(r + v) % len(gen_forms)]
+                if form.startswith("buf-") and k % 8:
+                    form = "le"
+                steps.append(["gen", name, form, format(v, f"0{k}b")])
+        held = history_probe(ctx, fails, table, refs, f"{name}.codebook", steps, correspond=True)
+        # the code book as a whole (what the property says about code words, said about the kept arrays)
+        book = [canon(o) if o is not None else None for o in held[: 2**k]]
+        if None not in book and len(set(book)) != len(book):
+            a = next(i for i in range(len(book)) if book.index(book[i]) != i)
+            fails(
+                "held-codebook-not-distinct",
+                {"code": name, "history": [" ".join(s) for s in steps[: 2**k]]},
+                f"[{name}.generate(m) for m in all messages] holds {len(set(book))} distinct code words instead of {len(book)}: "
+                f"entries {book.index(book[a])} and {a} are equal",
+                expected=len(book),
+                actual=len(set(book)),
+            )
+        keep = sorted(ctx.rng.sample(range(len(held)), min(len(held), 256)))
+        for i in keep:
+            if held[i] is not None:
+                long_held.append((name, " ".join(steps[i]), held[i], R.enc(steps[i][3])))
+        del held
+
         # ---------------- received words
-        exhaustive = ctx.thorough() and n <= 20
+        exhaustive = n <= 16 or (ctx.thorough() and n <= 20)
         if exhaustive:
             words = range(2**n)
         else:
-            words = sorted({ctx.rng.randrange(2**n) for _ in range(ctx.budget(1500, 1500))} | {0, 2**n - 1})
-        pairs_c, pairs_cac = [], []
+            words = sorted({ctx.rng.randrange(2**n) for _ in range(ctx.budget(4000, 4000))} | {0, 2**n - 1})
+        pairs_c, pairs_cac, pairs_cor = [], [], []
         do_cac = is_hamming and (n <= 17)
         for wv in words:
             w = int2ba(wv, length=n)
@@ -120,14 +540,68 @@ def run(ctx):
             c = call(cls.check, bitarray(w))
             pairs_c.append((f"code.check {name} {ws}", ("1" if c else "0") if isinstance(c, (bool,)) or c in (True, False) else str(c)))
             ctx.case((name, "check", wv), nontrivial=wv != 0)
-            if bool(c) != (ws in cwset):
-                ctx.fail("checker-not-exact", {"code": name, "word": ws}, f"{name}.check disagrees with code word membership", expected=ws in cwset, actual=str(c))
-            if do_cac and (not exhaustive or n <= 16 or wv % 4 == ctx.seed % 4):
+            if c not in (True, False) or bool(c) != (ws in cwset) or bool(c) != R.is_cw(ws):
+                fails("checker-not-exact", {"code": name, "word": ws}, f"{name}.check disagrees with code word membership", expected=R.is_cw(ws), actual=str(c))
+            if do_cac and (not exhaustive or n <= 13 or (wv % 4 == ctx.seed % 4) or (ctx.thorough() and n <= 16)):
                 r = call(cls.check_and_correct, bitarray(w))
                 rs = r if isinstance(r, str) else f"{'1' if r[0] else '0'} {bits_str(r[1])}"
                 pairs_cac.append((f"code.cac {name} {ws}", rs))
                 ctx.case((name, "cac", wv), nontrivial=wv != 0)
+                want = R.cac(ws)
+                if want is not None and rs != want:
+                    fails(
+                        "single-error-not-repaired" if want[0] == "1" else "double-error-not-reported",
+                        {"code": name, "word": ws},
+                        f"{name}.check_and_correct mis-handles a word within distance {1 if want[0] == '1' else 2} of a code word",
+                        expected=want,
+                        actual=rs,
+                    )
         ctx.count(f"{name}:words", len(pairs_c))
+
+        # ---------------- structured words: one word of every coset; low-weight patterns for Golay / QR
+        struct = []
+        for s in range(2 ** (n - k)):
+            struct.append(R.cw_int[ctx.rng.randrange(2**k)] ^ s)
+            struct.append(s)
+        ctx.count(f"{name}:coset-words", len(struct))
+        if not is_hamming:
+            lw = 0
+            smp = sorted({ctx.rng.randrange(2**k) for _ in range(ctx.budget(24, 2**k))} | {0, 2**k - 1})
+            for v in smp:
+                for i in range(n):
+                    struct.append(R.cw_int[v] ^ (1 << i))
+                    lw += 1
+                for i, j in itertools.combinations(range(n), 2):
+                    struct.append(R.cw_int[v] ^ (1 << i) ^ (1 << j))
+                    lw += 1
+                for _ in range(60):
+                    e = 0
+                    for b in ctx.rng.sample(range(n), ctx.rng.choice((3, 4, d - 1, d, d + 1))):
+                        e |= 1 << b
+                    struct.append(R.cw_int[v] ^ e)
+                    lw += 1
+            ctx.count(f"{name}:low-weight-error-words", lw)
+        for wi in struct:
+            ws = format(wi, R.fmt)
+            c = call(cls.check, bitarray(ws))
+            pairs_c.append((f"code.check {name} {ws}", b01(c) if c in (True, False) else str(c)))
+            ctx.case((name, "check", wi), nontrivial=wi != 0)
+            if c not in (True, False) or bool(c) != R.is_cw(ws):
+                fails("checker-not-exact", {"code": name, "word": ws}, f"{name}.check disagrees with code word membership", expected=R.is_cw(ws), actual=str(c))
+            if do_cac:
+                r = call(cls.check_and_correct, bitarray(ws))
+                rs = r if isinstance(r, str) else f"{b01(r[0])} {bits_str(r[1])}"
+                pairs_cac.append((f"code.cac {name} {ws}", rs))
+                want = R.cac(ws)
+                if want is not None and rs != want:
+                    fails(
+                        "single-error-not-repaired" if want[0] == "1" else "double-error-not-reported",
+                        {"code": name, "word": ws},
+                        f"{name}.check_and_correct mis-handles a word within distance {1 if want[0] == '1' else 2} of a code word",
+                        expected=want,
+                        actual=rs,
+                    )
+
         # ---------------- error patterns on code words
         msgs = range(2**k) if (ctx.thorough() or k <= 9) else sorted({ctx.rng.randrange(2**k) for _ in range(ctx.budget(200, 200))} | {0, 2**k - 1})
         if is_hamming:
@@ -142,7 +616,7 @@ def run(ctx):
                     pairs_cac.append((f"code.cac {name} {ws}", rs))
                     ctx.case((name, "single", v, i), sample={"code": name, "op": "check_and_correct", "word": ws, "out": rs} if (v, i) == (3, 2) else None)
                     if rs != f"1 {c}":
-                        ctx.fail("single-error-not-repaired", {"code": name, "message": bits_str(int2ba(v, length=k)), "position": i}, f"{name}.check_and_correct does not repair a single error", expected=f"1 {c}", actual=rs)
+                        fails("single-error-not-repaired", {"code": name, "message": bits_str(int2ba(v, length=k)), "position": i}, f"{name}.check_and_correct does not repair a single error", expected=f"1 {c}", actual=rs)
             ctx.count(f"{name}:single-errors", len(msgs) * n)
         if name == "h16114":
             pairs_ij = list(itertools.combinations(range(16), 2))
@@ -159,40 +633,258 @@ def run(ctx):
                     pairs_cac.append((f"code.cac {name} {ws}", rs))
                     ctx.case((name, "double", v, i, j))
                     if rs != f"0 {ws}":
-                        ctx.fail("double-error-not-reported", {"code": name, "message": bits_str(int2ba(v, length=k)), "positions": [i, j]}, "Hamming(16,11,4) mis-handles a double error", expected=f"0 {ws}", actual=rs)
+                        fails("double-error-not-reported", {"code": name, "message": bits_str(int2ba(v, length=k)), "positions": [i, j]}, "Hamming(16,11,4) mis-handles a double error", expected=f"0 {ws}", actual=rs)
             ctx.count(f"{name}:double-errors", len(dmsgs) * len(pairs_ij))
-        if not ctx.search_only and ctx.driver_ok:
+
+        # ---------------- the same logical bits in every accepted container
+        pairs_form = []
+        # generate: every message in every container
+        fmsgs = range(2**k) if (k <= 9 or ctx.thorough()) else sorted({ctx.rng.randrange(2**k) for _ in range(ctx.budget(512, 512))} | {0, 1, 2**k - 1})
+        for form in gen_forms[1:]:
+            cnt = 0
+            for v in fmsgs:
+                ms = format(v, f"0{k}b")
+                arg = mk_arg(form, ms)
+                if arg is None:
+                    continue
+                line = f"code.genS {name} {store_args(arg)}" if form in BA_FORMS else f"code.gen {name} {ms}"
+                out = canon(call(cls.generate, arg))
+                cnt += 1
+                ctx.case((name, "gen", form, v), nontrivial=v != 0)
+                pairs_form.append((line, out))
+                if out != R.cw[v]:
+                    fails("container-changes-result", {"code": name, "op": "generate", "form": form, "message": ms}, f"{name}.generate of the same message held in a {form} container differs", expected=R.cw[v], actual=out)
+                elif canon(arg) != ms:
+                    again = canon(call(cls.generate, arg))
+                    if again != R.cw[v]:
+                        fails("container-changes-result", {"code": name, "op": "generate twice on one object", "form": form, "message": ms}, f"{name}.generate altered its argument: the second call on the same object differs", expected=R.cw[v], actual=again)
+            if cnt:
+                ctx.count(f"{name}:container:{form}:generate", cnt)
+        # words: clean code words, every single error position, doubles, some arbitrary words
+        wsel = []
+        smp = sorted({ctx.rng.randrange(2**k) for _ in range(ctx.budget(48, 400))} | {0, 2**k - 1})
+        for v in smp:
+            c = R.cw_int[v]
+            wsel.append(c)
+            wsel += [c ^ (1 << b) for b in range(n)]
+            prs = list(itertools.combinations(range(n), 2))
+            for i, j in prs if name == "h16114" and v in smp[:8] else ctx.rng.sample(prs, 6):
+                wsel.append(c ^ (1 << i) ^ (1 << j))
+        wsel += [ctx.rng.randrange(2**n) for _ in range(ctx.budget(200, 2000))]
+        for form in BA_FORMS[1:] + (NP_FORMS if is_hamming else ()):
+            cnt = 0
+            for wi in wsel:
+                ws = format(wi, R.fmt)
+                if form in NP_FORMS:
+                    arg = mk_arg(form, ws)
+                    out = canon(call(cls.correct_numpy_array, arg))
+                    pairs_cor.append((f"code.correct {name} {ws}", out))
+                    ctx.case((name, "correct", form, wi), nontrivial=wi != 0)
+                    cnt += 1
+                    want = R.correct(ws)
+                    if want is not None and out != want:
+                        fails("container-changes-result", {"code": name, "op": "correct_numpy_array", "form": form, "word": ws}, f"{name}.correct_numpy_array mis-handles a word within distance {1 if want != ws else 2} of a code word held in a {form} array", expected=want, actual=out)
+                    continue
+                arg = mk_arg(form, ws)
+                if arg is None:
+                    continue
+                st = store_args(arg)
+                c1 = call(cls.check, arg)
+                c2 = call(cls.check, arg)  # the same object again
+                pairs_form.append((f"code.checkS {name} {st}", b01(c1)))
+                ctx.case((name, "check", form, wi), nontrivial=wi != 0)
+                cnt += 1
+                for cx, nth in ((c1, "first"), (c2, "second")):
+                    if cx not in (True, False) or bool(cx) != R.is_cw(ws):
+                        fails("container-changes-result", {"code": name, "op": "check" if nth == "first" else "check twice on one object", "form": form, "word": ws}, f"{name}.check ({nth} call) of the same word held in a {form} container disagrees with code word membership", expected=R.is_cw(ws), actual=str(cx))
+                        break
+                if is_hamming and form in MUTABLE_BA_FORMS:
+                    r = call(cls.check_and_correct, arg)
+                    if isinstance(r, str):
+                        rs, rl = r, r
+                    else:
+                        rs = f"{b01(r[0])} {canon(r[1])}"
+                        rl = f"{b01(r[0])} {r[1].tobytes().hex() or '-'}" if isinstance(r[1], bitarray) else rs
+                    pairs_form.append((f"code.cacS {name} {st}", rl))
+                    ctx.case((name, "cac", form, wi), nontrivial=wi != 0)
+                    want = R.cac(ws)
+                    if want is not None and rs != want:
+                        fails("container-changes-result", {"code": name, "op": "check_and_correct", "form": form, "word": ws}, f"{name}.check_and_correct mis-handles a word within distance {1 if want[0] == '1' else 2} of a code word held in a {form} container", expected=want, actual=rs)
+            if cnt:
+                ctx.count(f"{name}:container:{form}:{'correct_numpy_array' if form in NP_FORMS else 'check+check_and_correct'}", cnt)
+
+        # ---------------- overwrite a returned object, call again
+        steps = []
+        nres = 0
+        osel = sorted({ctx.rng.randrange(2**k) for _ in range(ctx.budget(96, 1024))} | {0, 1, 2**k - 1})
+        for v in osel:
+            ms = format(v, f"0{k}b")
+            other = format(ctx.rng.randrange(2**k), f"0{k}b")
+            junk = ctx.rng.choice(("0" * n, "1" * n, format(R.cw_int[v] ^ (2**n - 1), R.fmt), format(ctx.rng.randrange(2**n), R.fmt)))
+            steps += [["gen", name, "be", ms], ["overwrite", nres, junk], ["gen", name, ctx.rng.choice(gen_forms[:2] + NP_FORMS[:2]), ms],
+                      ["gen", name, "be", other], ["check", name, "be", R.cw[v]]]
+            nres += 3
+            if is_hamming:
+                e = format(R.cw_int[v] ^ (1 << ctx.rng.randrange(n)), R.fmt)
+                junk2 = ctx.rng.choice(("0" * n, "1" * n, format(ctx.rng.randrange(2**n), R.fmt)))
+                steps += [["cac", name, ctx.rng.choice(("be", "le")), e], ["overwrite", nres, junk2], ["cac", name, "be", e],
+                          ["correct", name, "np-int64", e], ["overwrite", nres + 2, junk2], ["correct", name, ctx.rng.choice(NP_FORMS), e],
+                          ["cac", name, "be", R.cw[v]], ["overwrite", nres + 4, junk], ["check", name, "le", R.cw[v]], ["cac", name, "le", R.cw[v]]]
+                nres += 6
+        history_probe(ctx, fails, table, refs, f"{name}.overwrite-call-again", steps)
+
+        if do_corr:
             ctx.correspond(f"{name}.check", pairs_c)
             if pairs_cac:
                 ctx.correspond(f"{name}.check_and_correct", pairs_cac)
+            if pairs_cor:
+                ctx.correspond(f"{name}.correct_numpy_array", pairs_cor)
+            if pairs_form:
+                ctx.correspond(f"{name}.containers", pairs_form)
+
+    # ---------------- all codes and entry points interleaved at random, everything kept
+    names = [c[0] for c in codes()]
+    steps = []
+    nres = 0
+    res_len = []
+    for _ in range(ctx.budget(4000, 40000)):
+        name = ctx.rng.choice(names)
+        _, cls, n, k, d, is_hamming = table[name]
+        R = refs[name]
+        if nres and ctx.rng.random() < 0.08:
+            # overwrite a kept object with something of its own length
+            r = ctx.rng.randrange(nres)
+            nn = res_len[r]
+            steps.append(["overwrite", r, format(ctx.rng.randrange(2**nn), f"0{nn}b")])
+            continue
+        v = ctx.rng.randrange(2**k)
+        kind = ctx.rng.random()
+        wi = R.cw_int[v]
+        if kind < 0.35:
+            wi ^= 1 << ctx.rng.randrange(n)
+        elif kind < 0.5:
+            i, j = ctx.rng.sample(range(n), 2)
+            wi ^= (1 << i) | (1 << j)
+        elif kind < 0.6:
+            wi = ctx.rng.randrange(2**n)
+        ws = format(wi, R.fmt)
+        op = ctx.rng.choice(("gen", "check", "cac", "correct") if is_hamming else ("gen", "check"))
+        if op == "gen":
+            form = ctx.rng.choice(gen_forms)
+            if form.startswith("buf-") and k % 8:
+                form = "be"
+            steps.append(["gen", name, form, format(v, f"0{k}b")])
+        elif op == "check":
+            form = ctx.rng.choice(BA_FORMS)
+            if form.startswith("buf-") and n % 8:
+                form = "le"
+            steps.append(["check", name, form, ws])
+        elif op == "cac":
+            form = ctx.rng.choice(MUTABLE_BA_FORMS)
+            if form.startswith("buf-") and n % 8:
+                form = "dirty-le"
+            steps.append(["cac", name, form, ws])
+        else:
+            steps.append(["correct", name, ctx.rng.choice(NP_FORMS), ws])
+        if op in RESULT_OPS:
+            nres += 1
+            res_len.append(n)
+    held = history_probe(ctx, fails, table, refs, "interleaved", steps)
+    del held
+
+    # ---------------- words of one code resized to the length of another (keys that collide after
+    # padding / truncation), checked right after the original was seen by its own code
+    steps = []
+    for xa, xb in itertools.permutations(names, 2):
+        _, _, na, ka, _, _ = table[xa]
+        _, _, nb, kb, _, hb = table[xb]
+        Ra, Rb = refs[xa], refs[xb]
+        for _ in range(ctx.budget(24, 200)):
+            c = Ra.cw[ctx.rng.randrange(2**ka)]
+            if ctx.rng.random() < 0.3:
+                ci = int(c, 2) ^ (1 << ctx.rng.randrange(na))
+                c = format(ci, Ra.fmt)
+            fill = ctx.rng.choice("01")
+            if ctx.rng.random() < 0.5:
+                w = (c + fill * nb)[:nb]  # padded / cut at the end (what tobytes() padding does)
+            else:
+                w = (fill * nb + c)[-nb:]  # padded / cut at the front (what int() of the bits does)
+            steps.append(["check", xa, "be", c])
+            steps.append(["check", xb, ctx.rng.choice(("be", "le")), w])
+            if hb:
+                steps.append(["cac", xb, ctx.rng.choice(("be", "le")), w])
+    history_probe(ctx, fails, table, refs, "resized-words-across-codes", steps)
+
+    # ---------------- everything kept since the beginning is read once more; class tables untouched
+    bad = 0
+    for name, desc, obj, want in long_held:
+        cur = canon(obj)
+        if cur != want:
+            bad += 1
+            fails("held-result-changed", {"code": name, "history": [desc, "… the rest of the run …"]}, f"the array returned by '{desc}' no longer holds its code word at the end of the run", expected=want, actual=cur)
+    ctx.count("hist:kept-until-end-of-run", len(long_held))
+    for name, c in table.items():
+        for a, v0 in tables0[name].items():
+            if getattr(c[1], a).tolist() != v0:
+                fails("class-table-changed", {"code": name, "table": a}, f"{name}.{a} was modified during the run", expected="unchanged", actual="changed")
     ctx.exhaustive = ctx.thorough()
 
 
+# ------------------------------------------------------------------------------------------------
 def replay(obj):
     f = obj.get("failure") or {}
     inp = f.get("input", {})
     table = {c[0]: c for c in codes()}
-    print(json_dumps(obj.get("type")), f.get("what"))
-    if "code" in inp:
+    print(json.dumps(obj.get("type")), f.get("what"))
+    still = None
+    if "history" in inp:
+        ref_json = json.load(open(os.path.join(os.path.dirname(os.path.abspath(__file__)), "..", "reference", "etsi_codes.json")))
+        refs = {name: Ref(name, n, k, d, h, ref_json[name]["G"]) for name, _, n, k, d, h in codes()}
+        steps = [parse_step(s) for s in inp["history"] if not s.startswith("…")]
+        bad = []
+        lines, held, exp = run_history(table, refs, steps, on_bad=lambda *a: bad.append(a))
+        for line, out in lines:
+            print(f"implementation  {line:60s} -> {out}")
+        for kind, at, owner, want, got in bad:
+            print(f"{kind}: result of step {owner} after step {at}: expected {want}, actual {got}")
+        still = bool(bad)
+    elif "code" in inp:
         name, cls, n, k, d, _ = table[inp["code"]]
+        form = inp.get("form", "be")
+        op = inp.get("op", "")
         if "message" in inp:
-            m = bitarray(inp["message"])
-            out = gen_str(cls, m)
-            print(f"implementation {name}.generate({inp['message']}) = {out}")
-            w = bitarray(out)
-            for p in ([inp["position"]] if "position" in inp else inp.get("positions", [])):
-                w.invert(p)
-            print(f"implementation {name}.check({bits_str(w)}) = {call(cls.check, bitarray(w))}")
-            if hasattr(cls, "check_and_correct"):
-                r = call(cls.check_and_correct, bitarray(w))
-                print(f"implementation {name}.check_and_correct({bits_str(w)}) = {r}")
+            out = canon(call(cls.generate, mk_arg(form, inp["message"])))
+            print(f"implementation {name}.generate({inp['message']} as {form}) = {out}")
+            if op.startswith("generate"):
+                still = out != f.get("expected")
+            if not out.startswith("ERR"):
+                w = bitarray(out)
+                for p in ([inp["position"]] if "position" in inp else inp.get("positions", [])):
+                    w.invert(p)
+                print(f"implementation {name}.check({bits_str(w)}) = {call(cls.check, bitarray(w))}")
+                if hasattr(cls, "check_and_correct"):
+                    r = call(cls.check_and_correct, bitarray(w))
+                    rs = r if isinstance(r, str) else f"{b01(r[0])} {canon(r[1])}"
+                    print(f"implementation {name}.check_and_correct({bits_str(w)}) = {rs}")
+                    if "position" in inp or "positions" in inp:
+                        still = rs != f.get("expected")
         if "word" in inp:
-            print(f"implementation {name}.check({inp['word']}) = {call(cls.check, bitarray(inp['word']))}")
+            ws = inp["word"]
+            if form in NP_FORMS:
+                out = canon(call(cls.correct_numpy_array, mk_arg(form, ws)))
+                print(f"implementation {name}.correct_numpy_array({ws} as {form}) = {out}")
+                still = out != f.get("expected")
+            else:
+                arg = mk_arg(form, ws)
+                c = call(cls.check, arg)
+                print(f"implementation {name}.check({ws} as {form}) = {c}")
+                if op.startswith("check") and op != "check_and_correct" or f.get("kind") == "checker-not-exact":
+                    c2 = call(cls.check, arg)
+                    still = str(c) != str(f.get("expected")) or str(c2) != str(f.get("expected"))
+                elif hasattr(cls, "check_and_correct"):
+                    r = call(cls.check_and_correct, mk_arg(form if form in MUTABLE_BA_FORMS else "be", ws))
+                    rs = r if isinstance(r, str) else f"{b01(r[0])} {canon(r[1])}"
+                    print(f"implementation {name}.check_and_correct({ws} as {form}) = {rs}")
+                    still = rs != f.get("expected")
     print("expected:", f.get("expected"), "actual:", f.get("actual"))
-    return 1
-
-
-def json_dumps(x):
-    import json
-
-    return json.dumps(x)
+    return 1 if still or still is None else 0
